@@ -321,7 +321,7 @@ static int sweep_c11(int argc, char **argv) {
     size_t backing = mtu + 32768;
     uint8_t *buf = malloc(backing);
     memset(buf, 0x80, backing);
-    unsigned long long cases = 0, nontriv = 0, clk_cases = 0;
+    unsigned long long cases = 0, nontriv = 0, clk_cases = 0, straddle = 0;
     const uint16_t GEN = 0x0102, XID = 0x0a0b;
     static const char *vname[] = {"empty", "same-seq", "different-seq", "other-generation", "other-mapper",
                                   "hole-then-same-seq", "hole-then-different-seq", "full-table-mapper-last-different-seq",
@@ -388,6 +388,34 @@ static int sweep_c11(int argc, char **argv) {
             }
         }
         }
+        /* the own address at a byte offset that is not a multiple of six: it straddles two neighbouring entries and is
+         * listed in neither - the Discover does not acknowledge */
+        if (variant == 0 || variant == 2 || variant == 9) {
+            static const int ns[] = {2, 3, 7, 100, 240};
+            for (int ni = 0; ni < 5; ni++) {
+                int n = ns[ni] <= nmax ? ns[ni] : nmax;
+                int ks[3] = {0, n / 2 > n - 2 ? n - 2 : n / 2, n - 2};
+                for (int ki = 0; ki < 3; ki++) for (int sh = 1; sh <= 5; sh++) {
+                    int k = ks[ki];
+                    vp_fill_stream(buf, mtu, fseed + 13);
+                    size_t o = mk_base(buf, BCAST, MX, 0, 0, BCAST, MX, XID);
+                    buf[o++] = GEN >> 8; buf[o++] = GEN & 255;
+                    buf[o++] = (uint8_t)(n >> 8); buf[o++] = (uint8_t)n;
+                    uint32_t s2 = fseed * 40503u + (uint32_t)n * 31u + (uint32_t)sh;
+                    for (size_t i = 36; i < mtu; i++) buf[i] = (uint8_t)(0x80 | (vp_prng(&s2) >> 9));
+                    memcpy(buf + 36 + 6 * k + sh, OWN, 6);
+                    int r = derive_session_event(buf, tab, OWN);
+                    int e = c11_expect(0, changed);
+                    cases++; straddle++;
+                    if (r != e) {
+                        char key[128];
+                        snprintf(key, sizeof(key), "C11:discover:%s:table=%s", r == c11_expect(1, changed) ? "address-straddling-two-entries-recognised" : "wrong-event", vname[variant]);
+                        viol(key, "count=%d, own address at byte offset %d of the list (entries %d and %d, shifted by %d): derive_session_event=%d expected %d",
+                             n, 6 * k + sh, k, k + 1, sh, r, e);
+                    } else nontriv++;
+                }
+            }
+        }
         session_table_destroy(tab);
     }
     /* every opcode x both reset destinations */
@@ -412,6 +440,7 @@ static int sweep_c11(int argc, char **argv) {
     }
     stat_ull("cases", cases);
     stat_ull("clock_advanced_cases", clk_cases);
+    stat_ull("straddling_cases", straddle);
     stat_ull("distinct_nontrivial", nontriv);
     stat_ull("violations", n_viol);
     printf("SAMPLE Discover count=n (1..%d), own address at list position p (0..n-1 or absent), table variant in "
